@@ -2,6 +2,7 @@ package fsloop
 
 import (
 	"github.com/goatcms/goatcore/app"
+	"github.com/goatcms/goatcore/verifhook"
 	"github.com/goatcms/goatcore/workers"
 	"github.com/goatcms/goatcore/workers/jobsync"
 )
@@ -71,9 +72,12 @@ func (loop *Loop) Run(path string) {
 	// lifecycle
 	go func() {
 		producerPool.Wait()
+		verifhook.Yield("fsloop.closer.waited")
 		loop.lifecycle.NextStep(StepClose)
+		verifhook.Yield("fsloop.closer.announced")
 		close(loop.loopData.chans.dirChan)
 		close(loop.loopData.chans.fileChan)
+		verifhook.Yield("fsloop.closer.closed")
 	}()
 }
 
